@@ -73,6 +73,22 @@ fn gen_sentence_seq(rng: &mut Rng, info: &WorldInfo, n: usize) -> Vec<String> {
             }
             2 => String::new(),
             3 if info.has_space => " ".repeat(1 + rng.usize(3)),
+            // the previous sentence continued: a suffix that repeats its last character (so that
+            // a run of one character category crosses the seam), or any other continuation
+            5 | 6 if !v.is_empty() && !v[v.len() - 1].is_empty() => {
+                let p = v[v.len() - 1].clone();
+                let last = p.chars().last().unwrap();
+                let mut s = p;
+                if rng.chance(2, 3) {
+                    for _ in 0..1 + rng.usize(3) {
+                        s.push(last);
+                    }
+                }
+                if rng.chance(1, 2) {
+                    s.push_str(&gen_sentence(rng, &info.surfaces));
+                }
+                s
+            }
             4 => {
                 // long
                 let mut s = String::new();
@@ -440,7 +456,7 @@ impl Scenario for WorkerScenario {
     fn describe(&self) -> ScenarioInfo {
         ScenarioInfo {
             level: "exploration",
-            rule: "one seeded run = a seeded dictionary (any connector, optional user lexicon and mapping) + one option set + 1-4 simulated caller tasks, each owning a Worker of the one shared Tokenizer and a program of reset/tokenize(0-3x)/read/iter/init-counter/update-counts/recreate operations over sentence sequences biased to shorter-after-longer, empty-after-non-empty and repeats; the plan's global operation order is the schedule (uniform or PCT-style priority schedules). After every read that follows a tokenize, the tokens must equal those of a worker created fresh for that sentence. Added later: 1 run in 150 contains a burst of 255/256/65534/65535/65536/131071 tokenizations of a short sentence between two sentences of one worker. Round 5: 1 bigram world in 6 with connection costs beyond 16 bits; a re-created worker (the old one dropped first) may tokenize and be read before it is given a sentence (= the empty sentence). distinct_nontrivial = distinct plan hashes of runs with >= 1 checked read after >= 1 reset/tokenize",
+            rule: "one seeded run = a seeded dictionary (any connector, optional user lexicon and mapping) + one option set + 1-4 simulated caller tasks, each owning a Worker of the one shared Tokenizer and a program of reset/tokenize(0-3x)/read/iter/init-counter/update-counts/recreate operations over sentence sequences biased to shorter-after-longer, empty-after-non-empty and repeats; the plan's global operation order is the schedule (uniform or PCT-style priority schedules). After every read that follows a tokenize, the tokens must equal those of a worker created fresh for that sentence. Added later: 1 run in 150 contains a burst of 255/256/65534/65535/65536/131071 tokenizations of a short sentence between two sentences of one worker. Round 5: 1 bigram world in 6 with connection costs beyond 16 bits; a re-created worker (the old one dropped first) may tokenize and be read before it is given a sentence (= the empty sentence). Round 6: sentence sequences contain continuations of the previous sentence (a character-category run crossing the seam). distinct_nontrivial = distinct plan hashes of runs with >= 1 checked read after >= 1 reset/tokenize",
             assumptions: vec![
                 "interleaving is explored at operation granularity on one OS thread (safe-Rust callers cannot interfere below that except through interior mutability, which the Send+Sync probe and the thorough-tier Miri run address)",
                 "reads between reset_sentence and the first tokenize are unspecified and not checked",
